@@ -209,12 +209,12 @@ let node_queues (n : node ref) : string =
   n := n_set_sup (n_set_repl !n []) [];
   Printf.sprintf "repl=[%s] sup=[%s]" r s
 
-let node_dump (with_addr : bool) (n : node) : string =
+let node_dump ?(anon = false) (with_addr : bool) (n : node) : string =
   let b = Buffer.create 256 in
   Buffer.add_string b ("role=" ^ role_letter n.n_role);
   Buffer.add_string b (Printf.sprintf " snap=[%s]"
     (String.concat "," (List.map (fun (nm, r) -> sesc nm ^ ":" ^ (if r then "true" else "false")) n.n_snap)));
-  List.iteri (fun i s ->
+  if not anon then List.iteri (fun i s ->
     let o = function Some x -> sesc x | None -> "-" in
     let m = match s.s_member with Some (nm, r) -> sesc nm ^ "/" ^ role_name r | None -> "-" in
     Buffer.add_string b (Printf.sprintf " s%d=%s/%s/%s/%s" i (if s.s_auth then "A" else "a") (o s.s_db) (o s.s_user) m))
@@ -230,7 +230,7 @@ let node_dump (with_addr : bool) (n : node) : string =
     Buffer.add_string b "] watch=[";
     let ws = List.sort (fun (a, _) (b, _) -> compare a b) (List.map (fun (k, l) -> (string_of_cl k, l)) d.d_watch) in
     Buffer.add_string b (String.concat "," (List.map (fun (k, l) ->
-      esc k ^ ":" ^ String.concat "." (List.map (fun c -> string_of_int (int_of_nat c)) l)) ws));
+      esc k ^ ":" ^ String.concat "." (List.map (fun c -> if anon then "?" else string_of_int (int_of_nat c)) l)) ws));
     Buffer.add_string b "]") dbs;
   Buffer.contents b
 
@@ -809,8 +809,125 @@ let run_sched (path : string) =
       Printf.printf "D %s\n" (node_dump false !n)) c.ops;
     print_string "E\n") (read_cases path)
 
+(* ---------- the three transports (Model/Net.v) ---------- *)
+type nkind = KTcp | KWs
+type nconn = { nk : nkind; msid : int; mutable nst : int (* 0 open, 1 closed, 2 dead *);
+               mutable items : string list; mutable partial : string }
+
+let run_net (path : string) =
+  let sentinel = "zzsync9137" in
+  let contains (s : string) (sub : string) =
+    let n = String.length s and m = String.length sub in
+    let rec go i = i + m <= n && (String.sub s i m = sub || go (i + 1)) in go 0 in
+  List.iter (fun c ->
+    Printf.printf "C %s\n" c.id;
+    let role = role_of_tok (match c.header with r :: _ -> r | [] -> "P") in
+    let n = ref (init_node (cl_of_string "nun") (cl_of_string "pwd") (cl_of_string "n0:3014") (n_of_int 1000) role clock0) in
+    let conns : nconn list ref = ref [] in
+    let ws_alive = ref true in
+    let nth sid = List.nth !conns sid in
+    (* move what the node queued for the session into the client's view of the stream *)
+    let pull (cn : nconn) =
+      let (n', msgs) = drain !n (nat_of_int cn.msid) in
+      n := n';
+      let msgs = List.map string_of_cl msgs in
+      match cn.nk with
+      | KWs -> cn.items <- cn.items @ msgs
+      | KTcp ->
+        let all = cn.partial ^ String.concat "" msgs in
+        let parts = String.split_on_char '\n' all in
+        let rec go acc = function
+          | [last] -> cn.partial <- last; List.rev acc
+          | x :: r -> go ((x ^ "\n") :: acc) r
+          | [] -> List.rev acc in
+        cn.items <- cn.items @ go [] parts in
+    let send_cmd (cn : nconn) (bytes : string) =
+      let b = cl_of_string bytes in
+      match cn.nk with
+      | KTcp ->
+        let (n', f) = tcp_line !n (nat_of_int cn.msid) b in
+        n := n';
+        if f = ThreadDied then cn.nst <- 2
+      | KWs ->
+        let (n', f) = ws_frame !n (nat_of_int cn.msid) b in
+        n := n';
+        if f = ThreadDied then begin ws_alive := false; List.iter (fun x -> if x.nk = KWs && x.nst = 0 then x.nst <- 2) !conns end in
+    (* the sentinel command, then everything in front of its answer *)
+    let sync (cn : nconn) : string list * string =
+      send_cmd cn sentinel;
+      if cn.nst <> 0 then ([], "EOF") else begin
+        pull cn;
+        let rec go acc = function
+          | [] -> cn.items <- []; cn.nst <- 2; (List.rev acc, "TIMEOUT")
+          | it :: r -> if contains it sentinel then (cn.items <- r; (List.rev acc, "")) else go (it :: acc) r in
+        go [] cn.items end in
+    let items_str l = String.concat "|" (List.map esc l) in
+    List.iter (fun op ->
+      let acting = ref (-1) in
+      let lists : (int * string list) list ref = ref [] in
+      let res = match op with
+        | ["tconn"] | ["wconn"] ->
+          let ws = (op = ["wconn"]) in
+          if ws && not !ws_alive then begin
+            conns := !conns @ [{ nk = KTcp; msid = -1; nst = 2; items = []; partial = "" }];
+            Printf.sprintf "Conn %d NOCONN" (List.length !conns - 1) end
+          else begin
+            let (n', id) = connect !n in n := n';
+            conns := !conns @ [{ nk = (if ws then KWs else KTcp); msid = int_of_nat id; nst = 0; items = []; partial = "" }];
+            Printf.sprintf "Conn %d" (List.length !conns - 1) end
+        | ("cmd" | "raw" | "split") :: sid :: a :: rest ->
+          (* split: one TCP line sent in two segments *)
+          let bytes = (match rest with [b] -> a ^ String.sub b 1 (String.length b - 1) | _ -> a) in
+          let sid = int_of_string sid in
+          acting := sid;
+          let cn = nth sid in
+          if cn.nst <> 0 then "DEAD" else begin
+            send_cmd cn (unhex bytes);
+            if cn.nst <> 0 then "EOF" else begin
+              let (its, why) = sync cn in
+              lists := (sid, its) :: !lists;
+              if why <> "" then why
+              else match List.filter (fun t -> t <> " \n") (List.rev its) with
+                | [] -> "NoReply"
+                | t :: _ ->
+                  if t = "ok \n" then "Ok"
+                  else if starts_with_s t "error " then begin
+                    let l = String.length t in
+                    let e = if l >= 2 && String.sub t (l - 2) 2 = " \n" then l - 2
+                      else if l >= 1 && t.[l - 1] = '\n' then l - 1 else l in
+                    let b = min 6 e in
+                    "Error " ^ esc (String.sub t b (e - b)) end
+                  else "Other" end end
+        | ["disc"; sid] ->
+          let sid = int_of_string sid in
+          acting := sid;
+          let cn = nth sid in
+          if cn.nst <> 0 then "DEAD" else begin
+            n := conn_closed !n (nat_of_int cn.msid); cn.nst <- 1; cn.items <- []; "Left" end
+        | ["http"; body] ->
+          let b = cl_of_string (unhex body) in
+          if not (utf8_valid b) then "Http 500 {}" else begin
+            let (n', out) = http_request !n b in
+            n := n';
+            match out with
+            | Some l -> "Http 200 " ^ esc (String.concat ";" (List.map string_of_cl l))
+            | None -> "Http DEAD" end
+        | _ -> failwith "bad net op" in
+      List.iteri (fun sid cn ->
+        if sid <> !acting && cn.nst = 0 then begin
+          let (its, why) = sync cn in
+          let its = if why = "" then its else its @ [why] in
+          if its <> [] then lists := (sid, its) :: !lists end) !conns;
+      let ls = List.sort (fun (a, _) (b, _) -> compare a b) (List.filter (fun (_, l) -> l <> []) !lists) in
+      let inb = if ls = [] then "-" else String.concat ";" (List.map (fun (s, l) -> Printf.sprintf "%d:[%s]" s (items_str l)) ls) in
+      let q = node_queues n in
+      Printf.printf "%s | %s | %s\n" res inb q;
+      Printf.printf "D %s\n" (node_dump ~anon:true false !n)) c.ops;
+    print_string "E\n") (read_cases path)
+
 let () =
   match Array.to_list Sys.argv with
+  | [_; "net"; path] -> run_net path
   | [_; "sched"; path] -> run_sched path
   | [_; "cluster"; path] -> run_cluster path
   | [_; "disk"; path] -> run_disk path
